@@ -23,11 +23,46 @@ def _doc(fn):
     return ast.get_docstring(fn) or ""
 
 
+def _single_assignments(m, node):
+    """{name: value expression} for the names assigned exactly once (by a plain  name = expr) in the functions enclosing node -- the
+    locals a clean-up introduces for an isinstance test or for a prebuilt implementation"""
+    out = {}
+    f = node if isinstance(node, (ast.FunctionDef, ast.Lambda)) else m.enclosing_function(node)
+    cache = m.__dict__.setdefault("_single_assign_cache", {})
+    if id(f) in cache:
+        return cache[id(f)]
+    key = id(f)
+    while f is not None:
+        count, val = {}, {}
+        for s in ast.walk(f):
+            if m.enclosing_function(s) is not f:
+                continue
+            tgts = []
+            if isinstance(s, ast.Assign):
+                tgts = [x for tg in s.targets for x in ast.walk(tg) if isinstance(x, ast.Name)]
+                if len(s.targets) == 1 and isinstance(s.targets[0], ast.Name):
+                    val[s.targets[0].id] = s.value
+            elif isinstance(s, (ast.AugAssign, ast.AnnAssign, ast.For, ast.NamedExpr)):
+                tgts = [x for x in ast.walk(s.target) if isinstance(x, ast.Name)]
+            elif isinstance(s, (ast.With,)):
+                tgts = [x for it in s.items if it.optional_vars is not None for x in ast.walk(it.optional_vars) if isinstance(x, ast.Name)]
+            for x in tgts:
+                count[x.id] = count.get(x.id, 0) + 1
+        sc = m.scopes.get(f)
+        params = set(sc.params) if sc is not None else set()
+        for name, v in val.items():
+            if count.get(name) == 1 and name not in params and name not in out:
+                out[name] = v
+        f = m.enclosing_function(f)
+    cache[key] = out
+    return out
+
+
 def _dispatches(prog, m, fn):
     """If-statements  isinstance(<x>, rs.MuxObservable)  inside fn."""
     out = []
     for n in ast.walk(fn):
-        t = _dispatch_test(n) if isinstance(n, ast.If) else None
+        t = _dispatch_test(n, _single_assignments(m, n)) if isinstance(n, ast.If) else None
         if t is not None:
             dn = dotted_name(t.args[1])
             if dn is None:
@@ -38,11 +73,14 @@ def _dispatches(prog, m, fn):
     return out
 
 
-def _dispatch_test(n):
-    """the isinstance(...) call of ``if isinstance(x, T)`` / ``if not isinstance(x, T)``"""
+def _dispatch_test(n, env=None):
+    """the isinstance(...) call of ``if isinstance(x, T)`` / ``if not isinstance(x, T)`` (also through a local:
+    ``is_mux = isinstance(x, T)`` ... ``if is_mux``)"""
     t = n.test
     if isinstance(t, ast.UnaryOp) and isinstance(t.op, ast.Not):
         t = t.operand
+    if isinstance(t, ast.Name) and env and t.id in env:
+        t = env[t.id]
     if isinstance(t, ast.Call) and dotted_name(t.func) == "isinstance" and len(t.args) == 2:
         return t
     return None
@@ -131,11 +169,12 @@ def dispatch_sites(prog, m, fn, own_only=False):
             continue
         pa = plain_arm(m, d)
         ma = mux_arm(m, d)
-        out.append(Dispatch(d, list(ma), list(pa), _arm_call(ma), _arm_call(pa), "if"))
+        env = _single_assignments(m, d)
+        out.append(Dispatch(d, list(ma), list(pa), _arm_call(ma, env), _arm_call(pa, env), "if"))
     # op = A(...) if isinstance(source, MuxObservable) else B(...)
     for n in ast.walk(fn):
         if isinstance(n, ast.IfExp) and (not own_only or m.enclosing_function(n) is fn):
-            t = _dispatch_test(n)
+            t = _dispatch_test(n, _single_assignments(m, n))
             if t is None:
                 continue
             dn = dotted_name(t.args[1])
@@ -193,11 +232,21 @@ def rule_ag1(ctx: Ctx) -> RuleResult:
     memo = {}
 
     def in_plain_arm(m, fn, node):
-        for d in dispatch_sites(prog, m, fn):
-            for s in d.plain_nodes:
-                for x in ast.walk(s):
-                    if x is node:
-                        return True
+        plain = [x for d in dispatch_sites(prog, m, fn) for s in d.plain_nodes for x in ast.walk(s)]
+        if any(x is node for x in plain):
+            return True
+        # built ahead of the dispatch:  impl = ops.take(count)  ...  and every use of impl is inside a plain arm
+        env = _single_assignments(m, fn)
+        for name, v in env.items():
+            if any(x is node for x in ast.walk(v)):
+                loads = [x for x in ast.walk(fn) if isinstance(x, ast.Name) and x.id == name and isinstance(x.ctx, ast.Load)]
+                # names of enclosing functions are visible in fn only; a use outside fn is outside every arm
+                owner = next((s for s in ast.walk(m.tree) if isinstance(s, ast.Assign) and s.value is v), None)
+                scope_fn = m.enclosing_function(owner) if owner is not None else None
+                all_loads = [x for x in ast.walk(scope_fn if scope_fn is not None else m.tree)
+                             if isinstance(x, ast.Name) and x.id == name and isinstance(x.ctx, ast.Load)]
+                if loads and len(all_loads) == len(loads) and all(any(x is y for y in plain) for x in loads):
+                    return True
         return False
 
     def check(m, fn, depth=0):
@@ -271,12 +320,15 @@ def _resolves_to_rxsci_operator(prog, m, call):
 
 
 # ----------------------------------------------------------------------
-def _arm_call(stmts):
-    """(callee text, [arg texts], node) of ``return F(args)(source)`` / ``return F(args)``"""
+def _arm_call(stmts, env=None):
+    """(callee text, [arg texts], node) of ``return F(args)(source)`` / ``return F(args)``; a callee that is a local bound once to
+    ``F(args)`` (an implementation built ahead of the dispatch) stands for that expression"""
     rets = [s for s in stmts if isinstance(s, ast.Return)]
     if len(rets) != 1 or rets[0].value is None:
         return None
     v = rets[0].value
+    if env and isinstance(v, ast.Call) and isinstance(v.func, ast.Name) and isinstance(env.get(v.func.id), ast.Call):
+        v = ast.Call(func=env[v.func.id], args=v.args, keywords=v.keywords)
     # argument *values* in call order (whether they are passed by position or by keyword)
     if isinstance(v, ast.Call) and isinstance(v.func, ast.Call):
         inner = v.func
